@@ -136,6 +136,34 @@ def impl_checks(ctx):
                         dict(T=T, p=p, api=api, gg=gg, Rsi=rsi, Tpc=tpc, Ppc=ppc, pb=pb), got, want)
         if k < 4:
             samples.append(dict(T=T, p=p, api=api, gg=gg, Rsi=rsi, pb=pb, dgor=got))
+    # --- assembly, saturated branch, where its factor (B_g - dB_o/dR_s) is smallest (it changes sign for heavy oils with
+    # high GOR a few percent below a high bubble point): the combination is checked as defined, sign included
+    neg = 0
+    for k in range(150 if ctx.quick else 3000):
+        T, api, gg, rsi, pb = dom.oil_params(rng, edge=True)
+        if k % 2:
+            api, rsi = float(rng.uniform(12, 28)), float(rng.uniform(800, 2500))
+            pb = float(oil.pressure_bubblepoint_Standing(T, api, gg, rsi))
+        tpc, ppc = float(rng.uniform(-110, -40)), float(rng.uniform(600, 700))
+        tr = (T + 459.67) / (tpc + 459.67)
+        if not (1.05 <= tr <= 3) or pb <= 50:
+            continue
+        grid = [q for q in pb * (1 - np.geomspace(1e-3, 0.5, 10)) if 15 < q and q / ppc <= 30]
+        if not grid:
+            continue
+        fac = [float(gas.b_factor_DAK(T, q, tpc, ppc, 60, 14.7)) - float(oil.db_o_dgor_Standing(T, api, gg, oil.solution_gor_Standing(T, q, api, gg, rsi))) for q in grid]
+        for q in {grid[int(np.argmin(fac))], grid[int(rng.integers(0, len(grid)))]}:
+            q = float(q)
+            got = float(oil.oil_compressibility_Standing(T, q, api, gg, rsi, tpc, ppc))
+            rs = oil.solution_gor_Standing(T, q, api, gg, rsi)
+            f_ = float(gas.b_factor_DAK(T, q, tpc, ppc, 60, 14.7)) - float(oil.db_o_dgor_Standing(T, api, gg, rs))
+            want = float(f_ * oil.dgor_dpressure_Standing(T, q, api, gg, rsi) / oil.b_o_bubblepoint_Standing(T, api, gg, rsi))
+            ev += 1
+            neg += f_ < 0
+            if not dom.relclose(got, want, 1e-9, 1e-300):
+                bad("oil_compressibility_Standing is not its defining combination",
+                    dict(T=T, p=q, api=api, gg=gg, Rsi=rsi, Tpc=tpc, Ppc=ppc, pb=pb, factor_Bg_minus_dBo_dRs=f_), got, want)
+    kinds["assembly points with negative (B_g - dB_o/dR_s)"] = int(neg)
     ctx.cov["evaluations"] = ctx.cov.get("evaluations", 0) + ev
     ctx.cov["distinct_nontrivial"] = ev
     ctx.cov["rule"] = ("random (T,p,salinity) and oils in the C12 box incl. box corners; pressures below, "
